@@ -99,6 +99,8 @@ type Mixed struct {
 	ForceGraded map[uint32]bool
 	// ForceUngraded makes a height carry too few records of either kind (no rates).
 	ForceUngraded map[uint32]bool
+	// ForceEmpty makes a height carry no entry on any tracked chain.
+	ForceEmpty map[uint32]bool
 }
 
 // DefaultMixedOpts is a busy but well-formed workload.
@@ -116,7 +118,7 @@ func NewMixed(e forge.Eras, seed int64, o MixedOpts, shortAvg uint64) *Mixed {
 	}
 	w := forge.NewWorld(e, seed, o.NMiners)
 	m := &Mixed{W: w, O: o, rng: rand.New(rand.NewSource(seed ^ 0x5eed)), byAddr: map[factom.FAAddress]forge.Key{},
-		At: map[uint32][]func(v *View, spec *forge.BlockSpec){}, ForceGraded: map[uint32]bool{}, ForceUngraded: map[uint32]bool{}}
+		At: map[uint32][]func(v *View, spec *forge.BlockSpec){}, ForceGraded: map[uint32]bool{}, ForceUngraded: map[uint32]bool{}, ForceEmpty: map[uint32]bool{}}
 	for i := 0; i < o.NUsers; i++ {
 		m.Users = append(m.Users, forge.NewKey(fmt.Sprintf("user-%d-%d", seed, i)))
 	}
@@ -291,6 +293,9 @@ func (m *Mixed) Next(v *View) forge.BlockSpec {
 	}
 	for _, f := range m.At[h] {
 		f(v, &spec)
+	}
+	if m.ForceEmpty[h] {
+		spec.OPR, spec.SPR, spec.Tx, spec.FTxs = nil, nil, nil, nil
 	}
 	return spec
 }
